@@ -311,7 +311,18 @@ def _meta_tables(ctx):
         s = set()
         for n in walk_no_nested(f.node):
             if isinstance(n, ast.If):
-                s |= set(compare_consts(n.test, pred))
+                cs = set(compare_consts(n.test, pred))
+                s |= cs
+                # a chain over the property name that ends in a plain,
+                # non-raising else handles every other property generically
+                if cs:
+                    cur = n
+                    while len(cur.orelse) == 1 and isinstance(cur.orelse[0],
+                                                              ast.If):
+                        cur = cur.orelse[0]
+                    if cur.orelse and not _always_raises(cur.orelse) and \
+                            set(compare_consts(cur.test, pred)):
+                        s.add('<else>')
         return s
 
     pn = lambda e: (isinstance(e, ast.Name) and e.id == 'prop_name') or \
@@ -366,7 +377,7 @@ def r2_reflective_dispatch(ctx):
             ctx.ok(where, '%s handles every changed Meta property '
                    'generically' % name)
             continue
-        if s == ref:
+        if s == ref or ('<else>' in s and s - {'<else>'} <= ref):
             ctx.ok(where, '%s covers the Meta properties %s' % (
                 name, sorted(s)))
         else:
@@ -437,14 +448,22 @@ def sqlite_tag_producers(ctx, eff):
                     tags = []
                     if const_str(v) is not None:
                         tags = [const_str(v)]
+                    elif isinstance(v, ast.IfExp):
+                        tags = [const_str(x) for x in (v.body, v.orelse)
+                                if const_str(x)]
                     elif isinstance(v, ast.Name):
-                        # op = 'A' / 'B' assigned in branches
+                        # op = 'A' / 'B' assigned in branches, or
+                        # op = 'A' if cond else 'B'
                         for a in walk_no_nested(m.node):
                             if isinstance(a, ast.Assign) and any(
                                     isinstance(t, ast.Name) and t.id == v.id
-                                    for t in a.targets) and \
-                                    const_str(a.value):
-                                tags.append(const_str(a.value))
+                                    for t in a.targets):
+                                if const_str(a.value):
+                                    tags.append(const_str(a.value))
+                                elif isinstance(a.value, ast.IfExp):
+                                    tags += [const_str(x) for x in (
+                                        a.value.body, a.value.orelse)
+                                        if const_str(x)]
                     for t in tags:
                         out.append((t, d, m))
                 elif 'sql' in keys and len(keys) <= 2 and any(
